@@ -1,49 +1,145 @@
 import TinsModel.Wire.L2.EthernetII
+import TinsModel.Wire.L2.Dot3
+import TinsModel.Wire.L2.Llc
+import TinsModel.Wire.L2.Snap
+import TinsModel.Wire.L2.Dot1Q
+import TinsModel.Wire.L2.Mpls
+import TinsModel.Wire.L2.PPPoE
+import TinsModel.Wire.L2.Sll
+import TinsModel.Wire.L2.Loopback
+import TinsModel.Wire.L2.Ppi
+import TinsModel.Wire.L2.Pktap
 /-
-  Family interface of `L2` (EthernetII, Dot3, LLC, SNAP, Dot1Q, MPLS, PPPoE, SLL, Loopback, PPI, PKTAP).
-  Modelled so far: EthernetII.
+  Family interface of `L2`: EthernetII, Dot3, LLC, SNAP, Dot1Q, MPLS, PPPoE, SLL, Loopback and the two capture
+  pseudo-headers PPI and PKTAP (parsing only: they are documented as not serializable).
 -/
 namespace Tins.Wire.L2
 
 inductive Obj
   | eth (e : Eth)
+  | dot3 (d : Dot3)
+  | llc (l : Llc)
+  | snap (s : Snap)
+  | dot1q (q : Dot1Q)
+  | mpls (m : Mpls)
+  | pppoe (p : PPPoE)
+  | sll (s : Sll)
+  | loopback (l : Loopback)
+  | ppi (p : Ppi)
+  | pktap (p : Pktap)
 deriving Repr
 
-def classes : List String := ["EthernetII"]
+def classes : List String :=
+  ["EthernetII", "Dot3", "LLC", "SNAP", "Dot1Q", "MPLS", "PPPoE", "SLL", "Loopback", "PPI", "PKTAP"]
 
 def parse (cls : String) (b : Bytes) : Out (Obj × Inner) :=
   if cls == "EthernetII" then (Eth.parse b) >>= fun (e, i) => pure (.eth e, i)
+  else if cls == "Dot3" then (Dot3.parse b) >>= fun (e, i) => pure (.dot3 e, i)
+  else if cls == "LLC" then (Llc.parse b) >>= fun (e, i) => pure (.llc e, i)
+  else if cls == "SNAP" then (Snap.parse b) >>= fun (e, i) => pure (.snap e, i)
+  else if cls == "Dot1Q" then (Dot1Q.parse b) >>= fun (e, i) => pure (.dot1q e, i)
+  else if cls == "MPLS" then (Mpls.parse b) >>= fun (e, i) => pure (.mpls e, i)
+  else if cls == "PPPoE" then (PPPoE.parse b) >>= fun (e, i) => pure (.pppoe e, i)
+  else if cls == "SLL" then (Sll.parse b) >>= fun (e, i) => pure (.sll e, i)
+  else if cls == "Loopback" then (Loopback.parse b) >>= fun (e, i) => pure (.loopback e, i)
+  else if cls == "PPI" then (Ppi.parse b) >>= fun (e, i) => pure (.ppi e, i)
+  else if cls == "PKTAP" then (Pktap.parse b) >>= fun (e, i) => pure (.pktap e, i)
   else .throw .stdOther
 
 def info : Obj → String × Fields
   | .eth e => ("EthernetII", e.fields)
+  | .dot3 d => ("Dot3", d.fields)
+  | .llc l => ("LLC", l.fields)
+  | .snap s => ("SNAP", s.fields)
+  | .dot1q q => ("Dot1Q", q.fields)
+  | .mpls m => ("MPLS", m.fields)
+  | .pppoe p => ("PPPoE", p.fields)
+  | .sll s => ("SLL", s.fields)
+  | .loopback l => ("Loopback", l.fields)
+  | .ppi p => ("PPI", p.fields)
+  | .pktap p => ("PKTAP", p.fields)
 
 def hdr : Obj → Nat
   | .eth _ => 14
+  | .dot3 _ => 14
+  | .llc l => l.hdr
+  | .snap _ => 8
+  | .dot1q _ => 4
+  | .mpls _ => 4
+  | .pppoe p => p.hdr
+  | .sll _ => 16
+  | .loopback _ => 4
+  | .ppi p => p.hdr
+  | .pktap _ => Pktap.headerLen
 
 def trl : Obj → Nat → Nat
   | .eth _, innerSize => Eth.trl innerSize
+  | .dot1q q, innerSize => q.trl innerSize
+  | _, _ => 0
 
 def write (cx : Ctx) : Obj → Bytes → Out Bytes
   | .eth e, region => e.write cx region
+  | .dot3 d, region => d.write cx region
+  | .llc l, region => l.write cx region
+  | .snap s, region => s.write cx region
+  | .dot1q q, region => q.write cx region
+  | .mpls m, region => m.write cx region
+  | .pppoe p, region => p.write cx region
+  | .sll s, region => s.write cx region
+  | .loopback l, region => l.write cx region
+  | .ppi p, region => p.write cx region
+  | .pktap p, region => p.write cx region
 
-def parseMac (s : String) : Option Bytes :=
-  match parseHexStr s with
-  | some b => if b.length == 6 then some b else none
-  | none => none
-
+/-- public constructors (`push <Class> [args]`); PKTAP / PPI have no API constructor with content: `push PKTAP <hex>`
+    and `push PPI <hex>` run the parsing constructor (used to exercise PKTAP, which the central harness cannot `parse`) -/
 def mk (cls : String) (args : List String) : Out Obj :=
   match cls, args with
   | "EthernetII", [] => .ok (.eth ⟨List.replicate 6 0, List.replicate 6 0, 0⟩)
   | "EthernetII", [d, s] => match parseMac d, parseMac s with
     | some d, some s => .ok (.eth ⟨d, s, 0⟩)
     | _, _ => .throw .stdOther
+  | "Dot3", [] => .ok (.dot3 (Dot3.create (List.replicate 6 0) (List.replicate 6 0)))
+  | "Dot3", [d, s] => match parseMac d, parseMac s with
+    | some d, some s => .ok (.dot3 (Dot3.create d s))
+    | _, _ => .throw .stdOther
+  | "LLC", [] => .ok (.llc (Llc.create 0 0))
+  | "LLC", [d, s] => match natArg d, natArg s with
+    | some d, some s => .ok (.llc (Llc.create d s))
+    | _, _ => .throw .stdOther
+  | "SNAP", [] => .ok (.snap Snap.create)
+  | "Dot1Q", [] => .ok (.dot1q (Dot1Q.create 0 true))
+  | "Dot1Q", [i, p] => match natArg i, boolArg p with
+    | some i, some p => .ok (.dot1q (Dot1Q.create i p))
+    | _, _ => .throw .stdOther
+  | "MPLS", [] => .ok (.mpls Mpls.create)
+  | "PPPoE", [] => .ok (.pppoe PPPoE.create)
+  | "SLL", [] => .ok (.sll Sll.create)
+  | "Loopback", [] => .ok (.loopback Loopback.create)
+  | "PKTAP", [h] => match parseHexStr h with
+    | some b => (Pktap.parse b) >>= fun (p, i) =>
+      match i with
+      | .none => pure (.pktap p)
+      | _ => .throw .stdOther          -- an inner chain cannot be expressed by a single `push`
+    | none => .throw .stdOther
   | _, _ => .throw .stdOther
 
+/-- the setters of EthernetII -/
+def ethApply (e : Eth) : List String → Out Eth
+  | ["dst_addr", v] => match parseMac v with | some m => .ok { e with dst := m } | none => .throw .stdOther
+  | ["src_addr", v] => match parseMac v with | some m => .ok { e with src := m } | none => .throw .stdOther
+  | ["payload_type", v] => match natArg v with | some n => .ok { e with ptype := n % 65536 } | none => .throw .stdOther
+  | _ => .throw .stdOther
+
 def apply : Obj → List String → Out Obj
-  | .eth e, ["dst_addr", v] => match parseMac v with | some m => .ok (.eth { e with dst := m }) | none => .throw .stdOther
-  | .eth e, ["src_addr", v] => match parseMac v with | some m => .ok (.eth { e with src := m }) | none => .throw .stdOther
-  | .eth e, ["payload_type", v] => match v.toNat? with | some n => .ok (.eth { e with ptype := n % 65536 }) | none => .throw .stdOther
+  | .eth e, op => (ethApply e op) >>= fun x => pure (.eth x)
+  | .dot3 d, op => (d.apply op) >>= fun x => pure (.dot3 x)
+  | .llc l, op => (l.apply op) >>= fun x => pure (.llc x)
+  | .snap s, op => (s.apply op) >>= fun x => pure (.snap x)
+  | .dot1q q, op => (q.apply op) >>= fun x => pure (.dot1q x)
+  | .mpls m, op => (m.apply op) >>= fun x => pure (.mpls x)
+  | .pppoe p, op => (p.apply op) >>= fun x => pure (.pppoe x)
+  | .sll s, op => (s.apply op) >>= fun x => pure (.sll x)
+  | .loopback l, op => (l.apply op) >>= fun x => pure (.loopback x)
   | _, _ => .throw .stdOther
 
 end Tins.Wire.L2
